@@ -631,6 +631,15 @@ func csvEncs(v *V, m mode) encSet {
 		}
 		rows = append(rows, row)
 	}
+	// fq's csv decoder has a documented comment option (default "#"); a row whose
+	// first field starts with it is a comment line by design, so such documents are
+	// decoded with comments switched off
+	hashRow := false
+	for _, r := range rows {
+		if len(r) > 0 && strings.HasPrefix(r[0], "#") {
+			hashRow = true
+		}
+	}
 	var out list
 	for _, variant := range []struct {
 		name  string
@@ -647,6 +656,12 @@ func csvEncs(v *V, m mode) encSet {
 		e := enc{B: append([]byte{}, bb.Bytes()...), L: variant.name}
 		if variant.comma != ',' {
 			e.Opts = map[string]any{"comma": string(variant.comma)}
+		}
+		if hashRow {
+			if e.Opts == nil {
+				e.Opts = map[string]any{}
+			}
+			e.Opts["comment"] = ""
 		}
 		out = append(out, e)
 	}
